@@ -35,6 +35,7 @@ type World struct {
 	lisp     map[string]*LispFile
 	exprAt   map[token.Pos]ast.Expr
 	regNames map[string]string
+	pfvDepth int
 }
 
 func loadWorld(repo string, tests bool, tags string, env []string) (*World, error) {
